@@ -129,6 +129,200 @@ def build_all(jobs):
     return uniq, ""
 
 
+# ---------------------------------------------------------------------------------------------------------------------
+# Engine B ("vfuzz"): harness/fuzzseq.cpp built natively with clang (libFuzzer + AddressSanitizer + UBSan)
+FUZZ_CXX = "clang++"
+FUZZ_FLAGS = ["-std=gnu++17", "-g", "-O1", "-fsanitize=fuzzer,address,undefined", "-fno-sanitize=null,alignment", "-fno-sanitize-recover=undefined", "-UNDEBUG", "-w"]
+FUZZ_ENV = {"ASAN_OPTIONS": "detect_leaks=0:abort_on_error=0:symbolize=0", "UBSAN_OPTIONS": "print_stacktrace=0"}
+
+
+def build_fuzz():
+    os.makedirs(BUILD, exist_ok=True)
+    src = os.path.join(HARNESS, "fuzzseq.cpp")
+    exe = os.path.join(BUILD, "fuzzseq-%s.bin" % obj_key("fuzz", src, FUZZ_FLAGS))
+    if os.path.exists(exe):
+        return exe, ""
+    tmp = exe + ".tmp%d" % os.getpid()
+    r = sh([FUZZ_CXX] + FUZZ_FLAGS + ["-I" + XROOT, "-o", tmp, src])
+    if r.returncode != 0:
+        return None, r.stdout
+    os.replace(tmp, exe)
+    return exe, ""
+
+
+def fuzz_classify(output):
+    m = re.search(r"VFUZZ-FAIL family=(\S+) kind=(\S+) message=(.*)", output)
+    if m:
+        return m.group(1), m.group(2), m.group(3).strip()
+    m = re.search(r"ERROR: AddressSanitizer: (\S+)(.*)", output)
+    if m:
+        return "", "asan_" + m.group(1).replace("-", "_"), (m.group(1) + m.group(2)).strip()[:300]
+    m = re.search(r"runtime error: (.*)", output)
+    if m:
+        return "", "ubsan", m.group(1).strip()[:300]
+    m = re.search(r"Assertion `(.*)' failed", output)
+    if m:
+        return "", "assertion", m.group(1)[:300]
+    m = re.search(r"ERROR: libFuzzer: (timeout|deadly signal)", output)
+    if m:
+        return "", "hang" if m.group(1) == "timeout" else "crash", "libFuzzer: " + m.group(1)
+    return "", "", ""
+
+
+def fuzz_run_input(exe, families, path, dump=False):
+    env = dict(os.environ, VFUZZ_FAMILIES=",".join(families), **FUZZ_ENV)
+    if dump:
+        env["VFUZZ_DUMP"] = "1"
+    r = sh(["timeout", "60", exe, "-timeout=20", path], env=env)
+    return r.returncode, r.stdout
+
+
+def fuzz_family_of(families, data):
+    return families[data[0] % len(families)] if data else ""
+
+
+def run_fuzz_replay(rp, times=3):
+    import base64
+    exe, err = build_fuzz()
+    if not exe:
+        return None, err
+    data = base64.b64decode(rp["input_b64"])
+    path = os.path.join(BUILD, "replay-%d.bin" % os.getpid())
+    with open(path, "wb") as fh:
+        fh.write(data)
+    fails = same = 0
+    out_all = ""
+    for i in range(times):
+        rc, out = fuzz_run_input(exe, rp["families"], path, dump=(i == 0))
+        fam, kind, msg = fuzz_classify(out)
+        if rc != 0 and kind:
+            fails += 1
+            same += kind == rp.get("kind")
+            out_all += "run %d: %s: %s\n" % (i + 1, kind, msg)
+        else:
+            out_all += "run %d: pass\n" % (i + 1)
+        if i == 0:
+            out_all += "\n".join(l for l in out.splitlines() if not l.startswith(("INFO:", "    #", "==")))[-3000:] + "\n"
+    os.unlink(path)
+    out_all += "REPLAY-RESULT expected_kind=%s violations=%d same_kind=%d of %d\n" % (rp.get("kind"), fails, same, times)
+    return {"expected": rp.get("kind"), "violations": fails, "same": same, "n": times, "output": out_all}, ""
+
+
+def run_fuzz_phase(prop, tier, seed, work, newrep):
+    """returns (coverage dict or None, violations list, error text)"""
+    import base64
+    import random as pyrandom
+    fj = vprops.fuzz_job(prop, tier)
+    if not fj:
+        return None, [], ""
+    exe, err = build_fuzz()
+    if not exe:
+        return None, [], err
+    fams = fj["families"]
+    t0 = time.time()
+
+    def worker(w):
+        d = os.path.join(work, "fuzz-w%d" % w)
+        corpus = os.path.join(d, "corpus")
+        os.makedirs(corpus, exist_ok=True)
+        if w % 2 == 1:
+            # every second worker starts from a few small valid inputs (one per family) instead of the empty corpus;
+            # the bytes come from a generator seeded with VERIF_SEED, not from the clock
+            rng = pyrandom.Random(seed * 1000003 + w)
+            for fi in range(len(fams)):
+                with open(os.path.join(corpus, "seed-%d" % fi), "wb") as fh:
+                    fh.write(bytes([fi]) + bytes(rng.randrange(256) for _ in range(48)))
+        stats = os.path.join(d, "stats.json")
+        env = dict(os.environ, VFUZZ_FAMILIES=",".join(fams), VFUZZ_STATS=stats, **FUZZ_ENV)
+        r = sh([exe, "-seed=%d" % (seed * 1000 + w + 1), "-runs=%d" % fj["runs"], "-max_len=%d" % fj["max_len"], "-timeout=20", "-rss_limit_mb=3000",
+                "-print_final_stats=1", "-artifact_prefix=" + d + "/", corpus], env=env)
+        st = {}
+        if os.path.exists(stats):
+            try:
+                st = json.load(open(stats))
+            except Exception:
+                st = {}
+        arts = sorted(glob.glob(os.path.join(d, "crash-*")))  # only crash artifacts count; slow-unit / oom / timeout are load noise
+        return w, r.returncode, r.stdout, st, arts, corpus
+
+    results = []
+    with cf.ThreadPoolExecutor(max_workers=min(NCPU, fj["workers"])) as ex:
+        for res in ex.map(worker, range(fj["workers"])):
+            results.append(res)
+
+    famstats, labels = {}, {}
+    execs = corpus_units = 0
+    violations = []
+    samples = []
+    for w, rc, out, st, arts, corpus in results:
+        for k, v in st.get("families", {}).items():
+            a = famstats.setdefault(k, [0, 0, 0])
+            for i in range(3):
+                a[i] += v[i]
+        for k, v in st.get("labels", {}).items():
+            labels[k] = labels.get(k, 0) + v
+        m = re.search(r"stat::number_of_executed_units: (\d+)", out)
+        execs += int(m.group(1)) if m else 0
+        units = sorted(glob.glob(os.path.join(corpus, "*")), key=lambda p: -os.path.getsize(p))
+        corpus_units += len(units)
+        if w == 0:
+            for u in units[:40:20]:
+                rc2, dump = fuzz_run_input(exe, fams, u, dump=True)
+                lines = [l for l in dump.splitlines() if not l.startswith(("INFO:", "Running", "Executed", "***", "./", "/"))]
+                samples.append({"engine": "vfuzz", "input_bytes": os.path.getsize(u), "decoded": lines[:40]})
+        for a in arts:
+            # confirm 3 of 3 before reporting
+            kinds = []
+            for i in range(3):
+                rc2, o2 = fuzz_run_input(exe, fams, a)
+                fam, kind, msg = fuzz_classify(o2)
+                kinds.append((rc2, fam, kind, msg))
+            if not all(k[0] != 0 and k[2] for k in kinds):
+                print("note: fuzz artifact %s did not reproduce 3 of 3 times (%s); not reported" % (a, [k[2] for k in kinds]))
+                continue
+            # shrink: libFuzzer's crash minimizer, accepted only if the same kind still fails
+            best = a
+            mini = a + ".min"
+            env = dict(os.environ, VFUZZ_FAMILIES=",".join(fams), **FUZZ_ENV)
+            sh(["timeout", "90", exe, "-minimize_crash=1", "-runs=30000", "-max_total_time=45", "-timeout=20", "-exact_artifact_path=" + mini, a], env=env)
+            if os.path.exists(mini):
+                rc3, o3 = fuzz_run_input(exe, fams, mini)
+                if rc3 != 0 and fuzz_classify(o3)[2] == kinds[0][2]:
+                    best = mini
+                    kinds[0] = (rc3,) + fuzz_classify(o3)
+            data = open(best, "rb").read()
+            rc4, dump = fuzz_run_input(exe, fams, best, dump=True)
+            fam = kinds[0][1] or fuzz_family_of(fams, data)
+            rp = {"engine": "vfuzz", "property": prop, "harness": "fuzzseq", "families": fams, "cfg": fam, "kind": kinds[0][2], "message": kinds[0][3],
+                  "input_b64": base64.b64encode(data).decode(), "seed": seed, "worker": w,
+                  "decoded": [l for l in dump.splitlines() if not l.startswith(("INFO:", "    #", "==", "Running", "./", "/"))][:120]}
+            name = "%s-vfuzz-%s-%s.json" % (prop, kinds[0][2], hashlib.sha256(data).hexdigest()[:10])
+            path = os.path.join(newrep, name)
+            with open(path, "w") as fh:
+                json.dump(rp, fh, indent=1)
+            violations.append({"kind": kinds[0][2], "message": kinds[0][3], "replay": path, "cfg": fam, "harness": "fuzzseq", "weak": False, "variant": "native", "window": 16})
+        if rc != 0 and not arts:
+            print("note: fuzz worker %d exited with %d without a crash artifact (load noise: timeout/oom/slow unit): %s" % (w, rc, out[-300:].replace("\n", " | ")))
+    cov = {
+        "engine": "vfuzz (libFuzzer, clang %s)" % " ".join(x for x in FUZZ_FLAGS if x.startswith("-fsan")),
+        "rule": vprops.FUZZ_RULE,
+        "families_[cases,nontrivial,operations]": famstats,
+        "cases": sum(v[0] for v in famstats.values()),
+        "nontrivial_cases": sum(v[1] for v in famstats.values()),
+        "operations_executed": sum(v[2] for v in famstats.values()),
+        "libfuzzer_executed_units": execs,
+        "corpus_units": corpus_units,
+        "labels": labels,
+        "workers": fj["workers"], "runs_per_worker": fj["runs"], "max_len": fj["max_len"],
+        "seeds": [seed * 1000 + w + 1 for w in range(fj["workers"])],
+        "starting_corpus": "even workers: empty; odd workers: one 49-byte input per family from a generator seeded with VERIF_SEED",
+        "samples": samples,
+        "violations": len(violations),
+        "wall_s": round(time.time() - t0, 1),
+    }
+    return cov, violations, ""
+
+
 def load_known():
     p = os.path.join(VERIF, "known_findings.json")
     if not os.path.exists(p):
@@ -187,6 +381,8 @@ def matches_old(finding, viol, prop):
 def run_replay_file(path, times=3):
     with open(path) as fh:
         rp = json.load(fh)
+    if rp.get("engine") == "vfuzz":
+        return run_fuzz_replay(rp, times)
     jobs = vprops.jobs_for_replay(rp)
     if not jobs:
         return None, "no harness known for replay %s" % path
@@ -224,7 +420,11 @@ def main():
         if bins is None:
             print("BUILD-FAILED\n" + err)
             return 2
-        print("setup: %d binaries ready" % len(bins))
+        fexe, ferr = build_fuzz()
+        if not fexe:
+            print("BUILD-FAILED (fuzzseq)\n" + ferr[-4000:])
+            return 2
+        print("setup: %d binaries ready (+ fuzzseq)" % len(bins))
         return 0
     if args[0] == "--selftest":
         # self-test of the weak memory model: forbidden litmus outcomes must never appear, the racy MP must be reported
@@ -294,6 +494,11 @@ def main():
     if bins is None:
         print("BUILD-FAILED property=%s\n%s" % (prop, err))
         return 2
+    if vprops.fuzz_job(prop, tier):
+        fexe, ferr = build_fuzz()
+        if not fexe:
+            print("BUILD-FAILED property=%s (fuzzseq)\n%s" % (prop, ferr[-4000:]))
+            return 2
     if build_only:
         return 0
     t_build = time.time() - t0
@@ -426,6 +631,15 @@ def main():
             v["window"] = jobs[d["_job"]].get("window", 16)
             violations.append(v)
 
+    # ---- Engine B: coverage-guided sequential fuzzing of the same property (native ASan/UBSan build)
+    fuzz_cov = None
+    if not os.environ.get("VERIF_NO_FUZZ"):
+        fuzz_cov, fviol, ferr = run_fuzz_phase(prop, tier, seed, work, newrep)
+        if ferr:
+            print("BUILD-FAILED property=%s (fuzzseq)\n%s" % (prop, ferr[-4000:]))
+            return 2
+        violations += fviol
+
     # ---- classify violations against the known-findings file
     new_viol = []
     excluded = 0
@@ -491,11 +705,16 @@ def main():
             "health_warnings": health,
             "build_s": round(t_build, 1),
             "xenium_root": XROOT,
+            "engine_B_fuzz": fuzz_cov if fuzz_cov else "not used for this property (no sequential container family applies)",
         },
         "assumptions": spec.get("assumptions", []),
         "wall_s": round(wall, 1),
         "violations": len(new_viol),
     }
+    if fuzz_cov:
+        evidence["coverage"]["evaluations"] += fuzz_cov["cases"]
+        evidence["coverage"]["evaluations_by_engine"] = {"vsched": ev["evaluations"], "vfuzz": fuzz_cov["cases"]}
+        evidence["coverage"]["samples"] = evidence["coverage"]["samples"] + fuzz_cov["samples"][:1]
     evdir = os.environ.get("VERIF_EVIDENCE_DIR", os.path.join(VERIF, "evidence"))  # scratch runs (mutants) write elsewhere
     os.makedirs(evdir, exist_ok=True)
     with open(os.path.join(evdir, prop + ".json"), "w") as fh:
@@ -506,6 +725,9 @@ def main():
         print(l)
     print("%s tier=%s seed=%d: %d cases, %d non-trivial (%d distinct), %d inconclusive, %d violation(s), %.1fs (build %.1fs)" % (
         prop, tier, seed, ev["evaluations"], ev["nontrivial"], len(fps), sum(inconcl.values()), len(new_viol), wall, t_build))
+    if fuzz_cov:
+        print("%s engine B (libFuzzer, ASan+UBSan): %d cases in %s, %d non-trivial, %d corpus units, %d violation(s), %.1fs" % (
+            prop, fuzz_cov["cases"], ",".join(vprops.FUZZ[prop]), fuzz_cov["nontrivial_cases"], fuzz_cov["corpus_units"], fuzz_cov["violations"], fuzz_cov["wall_s"]))
     for h in health:
         print("health: " + h)
     if new_viol:
